@@ -471,8 +471,10 @@ impl Scenario for C13 {
                 }
                 4 if rng.chance(1, 40) => {
                     // entry counts around 2^16 (often) and 2^24 (rarely: 128 MiB of entries)
-                    let n = if rng.chance(1, 30) { (1u32 << 24) - 1 + rng.below(3) as u32 } else { (1u32 << 16) - 1 + rng.below(3) as u32 };
-                    acts.push(Act::ThetaBig { ver: *rng.pick(&[3u8, 4, 4]), n, step: rng.range(1, 5000) as u16, theta_exact: rng.chance(1, 2), flags: 1 });
+                    let big = rng.chance(1, 10);
+                    let n = if big { (1u32 << 24) - 1 + rng.below(3) as u32 } else { (1u32 << 16) - 1 + rng.below(3) as u32 };
+                    let ver = if big { 4 } else { *rng.pick(&[3u8, 4, 4]) };
+                    acts.push(Act::ThetaBig { ver, n, step: rng.range(1, 5000) as u16, theta_exact: rng.chance(1, 2), flags: 1 });
                 }
                 4..=6 => {
                     let ne = match rng.below(6) {
